@@ -36,9 +36,7 @@ let s_pfx = function None -> "-" | Some a -> s_atom a
 let s_qname (p, l) = s_pfx p ^ "," ^ s_atom l
 let s_ename (u, l) = string_of_int (int_of_n u) ^ "," ^ s_atom l
 let s_hz = function
-  | HK3 -> "K3" | HXmlish -> "Xmlish" | HK16 -> "K16" | HK17 -> "K17" | HShadow -> "Shadow" | HLeak -> "Leak"
-  | HXmlPrefix -> "XmlPrefix" | HDeclAttr -> "DeclAttr" | HElemEmptyNs -> "ElemEmptyNs" | HExclDefault -> "ExclDefault" | HElemUndecl -> "ElemUndecl"
-  | HUnsupported -> "Unsupported"
+  | HK17 -> "K17" | HDeclAttr -> "DeclAttr" | HElemEmptyNs -> "ElemEmptyNs" | HUnsupported -> "Unsupported"
 let s_event = function
   | EStart (q, req, attrs) ->
       "S|" ^ s_qname q ^ "|" ^ s_ename req ^ "|" ^
